@@ -50,6 +50,11 @@ fn send(w: &mut World, conn: usize, delay: u64, pkt: &Packet, meta: RxMeta) {
 
 pub fn send_raw(w: &mut World, conn: usize, delay: u64, bytes: Vec<u8>, meta: RxMeta) {
     let len = bytes.len();
+    if len > w.cfg.rx_len && !matches!(meta, RxMeta::Garbage | RxMeta::Partial | RxMeta::Raw) {
+        // a conformant broker never exceeds the Maximum Packet Size the client advertised
+        w.probe("broker_packet_would_exceed_client_maximum");
+        return;
+    }
     w.schedule(
         delay,
         Event::Deliver {
@@ -363,6 +368,16 @@ fn on_connect(w: &mut World, conn: usize, pkt: &Packet) {
 
 fn connack_policy(w: &mut World, conn: usize, clean_start: bool, need_id: bool) {
     let t = 0xC000 + conn as u64;
+    if let Some(raw) = w.raw_instead_of_connack.take() {
+        // byte-string scenarios: these bytes are the whole answer, then the stream ends
+        w.conns[conn].connack_sent = true;
+        let len = raw.len();
+        if len > 0 {
+            w.schedule(0, Event::Deliver { conn, bytes: raw, metas: vec![(len, RxMeta::Raw)] });
+        }
+        w.schedule(0, Event::Close { conn });
+        return;
+    }
     // fault: no answer at all / wrong packet / reject / truncated / garbage
     if chance(w, t, 1, w.cfg.p_connack_fault) {
         let which = pick(w, t, 2, 7);
@@ -522,6 +537,11 @@ fn connack_policy(w: &mut World, conn: usize, clean_start: bool, need_id: bool) 
     let p = Packet::ConnAck { session_present: sp, reason: 0, props };
     let d = delay_us(w, t, 17);
     send(w, conn, d, &p, RxMeta::ConnAck { session_present: sp, reason: 0, semantic_ok: true });
+    if let Some(raw) = w.raw_after_connack.take() {
+        w.raw_mode = true;
+        let len = raw.len();
+        w.schedule(d, Event::Deliver { conn, bytes: raw, metas: vec![(len, RxMeta::Raw)] });
+    }
     if sp {
         broker_retransmit(w, conn, d);
     }
@@ -852,7 +872,7 @@ fn broker_ack_request(w: &mut World, conn: usize, ri: usize, id: u16) {
     let tag = w.reqs[ri].tag as u64;
     let attempt = w.reqs[ri].tx_by_conn.len() as u64;
     let t = (tag << 8) | attempt;
-    if chance(w, t, 1, w.cfg.p_withhold_ack) {
+    if w.hold_acks || chance(w, t, 1, w.cfg.p_withhold_ack) {
         w.fault("ack_withheld");
         w.withheld.push((conn, ri));
         return;
@@ -1022,6 +1042,9 @@ fn on_pubrel(w: &mut World, conn: usize, id: u16, reason: Option<u8>) {
 
 /// PUBACK / PUBREC / PUBCOMP written by the client for inbound messages (C04).
 fn on_client_ack(w: &mut World, conn: usize, typ: u8, id: u16, reason: Option<u8>) {
+    if w.raw_mode {
+        return;
+    }
     let got = (typ, id, reason.unwrap_or(0));
     let name = codec::type_name_of(typ);
     // optional re-sends of acks owed on an earlier connection come first, in order
@@ -1305,6 +1328,7 @@ pub fn on_client_consumed(w: &mut World, conn: usize, meta: RxMeta) {
         RxMeta::Partial => {
             w.expect = Some(Expect::InvalidOrEof);
         }
+        RxMeta::Raw => {}
     }
 }
 
